@@ -36,7 +36,14 @@ def build(B, cfg):
     M = [[[B.var('m%d_%d_%d' % (i, o, t)) for t in range(n_t)]
           for o in range(n_out)] for i in range(n_meas)]
     kind = cfg.get('filter', 'gaussian')
-    filt = c12.make(kind, ps.arr(B, M))
+    if cfg.get('composed_filter'):
+        # a composed filter over the time points (split 2 + rest)
+        M1 = [[row[:2] for row in ind] for ind in M]
+        M2 = [[row[2:] for row in ind] for ind in M]
+        filt = chi.ComposedPopulationFilter(
+            [c12.make(kind, ps.arr(B, M1)), c12.make(kind, ps.arr(B, M2))])
+    else:
+        filt = c12.make(kind, ps.arr(B, M))
     n_cov = sum(u['cov'] for u in units)
     covs = None
     if n_cov:
@@ -126,6 +133,8 @@ def case_post(B, cfg):
     Ms = [[[H['M'][i][o][j] for j in order] for o in range(n_out)]
           for i in range(len(H['M']))]
     c12._assume(B, H['kind'], Ms, Y)
+    # (a composed filter of Gaussian filters over disjoint time points is
+    # the Gaussian filter over all time points: decided by C12)
     ref_filter = c12.make(H['kind'], ps.arr(B, Ms)).compute_log_likelihood(
         ps.arr(B, Y))
     n_top = H['n_top']
@@ -189,6 +198,17 @@ def jobs(tier):
             times=timesets[k % 3], sigma_fixed=(k % 3 == 0),
             log_scale=(k % 4 == 1), bare=(len(c) == 1 and k % 2 == 0)),
             {'max_paths': 64}))
+    for k, c in enumerate(c02.extra_quick()):
+        out.append(('post', 'case_post', dict(
+            units=c, n_samples=2, times=timesets[k % 3],
+            sigma_fixed=(k % 2 == 0)), {'max_paths': 64}))
+    # composed filter, three unsorted times whose sorting permutation is not
+    # its own inverse
+    for times in ([2.5, 4.0, 1.0], [4.0, 1.0, 2.5]):
+        for c in ([U('gaussian'), U('pooled')], [U('lognormal_nc', 2)]):
+            out.append(('post', 'case_post', dict(
+                units=c, n_samples=2, times=times, composed_filter=True),
+                {'max_paths': 64}))
     cov = [c for c in c02.compositions(2, [2], covs=(0, 1))
            if any(u['cov'] for u in c)]
     cov = cov[::6] if q else cov[::2]
